@@ -4,7 +4,7 @@ HOOKS = {
     "guard": "verif-hooks (cargo feature of surf_n_term)",
     "enable": "the harness depends on surf_n_term with features = [\"verif-hooks\"] (harness/Cargo.toml, path dependency on /repo)",
     "baseline_off_cmd": "cd /repo && cargo test --workspace --no-fail-fast --offline",
-    "source_commits": ["7db4e26", "c1e7228"],
+    "source_commits": ["7db4e26", "c1e7228", "c162341"],
     "add_only": True,
 }
 
@@ -68,6 +68,12 @@ CHECKS = {
         "technique": "TLA+ matrix-of-parent-positions specification of views (reusing the slice spec); TLC-generated view programs replayed over four ownership routes; TLC judge incl. iter_mut addresses as parent offsets",
         "text": "TLC generates thousands of view programs (8 parent shapes incl. zero extents; chains of up to three view/transpose steps; every selector form with bounds beyond the axis; single steps exhaustive over the sampled selector set). Each is executed through the real trait methods on an owned nested view, a shared reference, a mutable reference and as_mut(), and TLC judges size, row-major iteration, get at every position incl. one past each edge, the parent after fill / clear / fill_with / insert (six insertion points incl. beyond the window) / set, map, and that iter_mut hands out exactly the window cells' addresses, each once (addresses logged as parent offsets).",
         "note": "UB-freedom of the unsafe iterator proper is Miri's domain, not decided here; only its observable contract is.",
+    },
+    "C17": {
+        "level": "model_checking",
+        "technique": "TLA+ select-loop model (waker self-pipe, signal pipe, write queue, kernel buffers, peer) model-checked for safety and liveness; real terminal object on a pseudo-terminal instrumented with verif-hooks, every session's totally ordered event trace validated by a TLC trace spec",
+        "text": "TLC checks the code-shaped poll loop against its environment (concurrent waker calls, SIGWINCH, peer input/drain, short writes, timeouts of every kind): a completed wake is always in the pipe until read, a pipe read queues exactly one Wake, inputs are conserved, and under fairness of the polling thread a pending wake is read while polls remain. The model is bound to the code by trace validation: seeded sessions of the real UnixTerminal on a pty (wake threads, SIGWINCH, typed keys, frames up to 300 kB with slow peers, frame drops, polls with zero/finite/no timeout, release after normal use / quit / double quit / pending output) log hook events and harness events under one atomic sequence; PollTrace requires every event to be a step of the specification - event queue FIFO incl. while output is pending, every wake followed by a waker read and a delivered Wake, SIGWINCH -> Resize, term signal -> Quit, line settings restored and equal to those at open, closing sequence seen by the peer.",
+        "note": "Interleavings are exhaustive in the model only; pty sessions sample the kernel's schedules. Real time is not modelled (finite timeouts and a bounded quiescence loop stand for 'bounded time').",
     },
 }
 
